@@ -131,6 +131,9 @@ func (v *list_[V]) GetValues(first int, last int) Sequential[V] {
 
 func (v *list_[V]) InsertValue(slot uint, value V) {
 
+	// Validate the slot.
+	v.checkSlot(slot)
+
 	// Create a new larger array.
 	var size = uint(v.GetSize() + 1)
 	var array = Array[V](v.GetClass().Notation()).Make(size)
@@ -154,6 +157,9 @@ func (v *list_[V]) InsertValue(slot uint, value V) {
 }
 
 func (v *list_[V]) InsertValues(slot uint, values Sequential[V]) {
+
+	// Validate the slot.
+	v.checkSlot(slot)
 
 	// Create a new larger array.
 	var size = uint(v.GetSize() + values.GetSize())
@@ -393,6 +399,18 @@ func (v *list_[V]) String() string {
 }
 
 // Private
+
+// This private instance method checks that the specified slot lies within the
+// range [0..size] of slots for this list.
+func (v *list_[V]) checkSlot(slot uint) {
+	var size = uint(v.GetSize())
+	if slot > size {
+		panic(fmt.Sprintf(
+			"The specified slot is outside the allowed range [0..%v]: %v",
+			size,
+			slot))
+	}
+}
 
 // This private instance method normalizes the specified relative index.  The
 // following transformation is performed:
